@@ -182,6 +182,9 @@ struct Obs {
     mf_kept: Vec<bool>,
     /// (chunk limit, positions collected by process_stream_new_msgs)
     stream_sets: Vec<(usize, Vec<usize>)>,
+    /// queries: (first window end, arrival batch size, positions collected after the window has been enlarged to the whole
+    /// stream and every message has been examined)
+    query_sets: Vec<(usize, usize, Vec<usize>)>,
     /// the export plugin configured with the same filter set: keys (reception time, timestamp, mcnt, payload) of the
     /// messages found in the file it wrote, without its own info messages. None = not observed for this set size
     export_keys: Option<Vec<(u64, u32, u8, Vec<u8>)>>,
@@ -260,6 +263,36 @@ fn observe(fx: &Fixture, set: &[&PoolEntry]) -> Result<Obs, (String, String)> {
             Ok(Ok(v)) => stream_sets.push((chunk, v)),
         }
     }
+    // (c2) the query path: a small window, arrival in batches (a later batch holds more matches than the window still wants),
+    // then the window is enlarged to the whole stream: every match must be collected in the end
+    let mut query_sets: Vec<(usize, usize, Vec<usize>)> = vec![];
+    for (w, batch) in [(3usize, 4usize), (2, 5), (1, 1), (5, 7)] {
+        let r = catch(|| -> Result<Vec<usize>, String> {
+            let jsq = format!("{{\"window\":[0,{w}],\"filters\":[{}]}}", set.iter().map(|p| p.json.as_str()).collect::<Vec<_>>().join(","));
+            let mut st = StreamContext::from(&fx.log, "query", &jsq).map_err(|e| e.to_string())?;
+            if !st.filters_active {
+                return Ok((0..fx.msgs.len()).collect());
+            }
+            let n = fx.msgs.len();
+            let mut avail = 0usize;
+            while avail < n {
+                avail = (avail + batch).min(n);
+                let last = st.all_msgs_last_processed_len.min(avail);
+                adlt::utils::remote_utils::process_stream_new_msgs(&mut st, last, &fx.msgs[last..avail], usize::MAX);
+            }
+            st.msgs_to_send = 0..n + 10;
+            for _ in 0..n + 2 {
+                let last = st.all_msgs_last_processed_len.min(n);
+                adlt::utils::remote_utils::process_stream_new_msgs(&mut st, last, &fx.msgs[last..n], usize::MAX);
+            }
+            Ok(st.filtered_msgs.clone())
+        });
+        match r {
+            Err(p) => return Err(("panic".into(), format!("{}|process_stream_new_msgs (query): {}", p.loc, p.msg))),
+            Ok(Err(e)) => return Err(("mf_construct".into(), format!("|{e}"))),
+            Ok(Ok(v)) => query_sets.push((w, batch, v)),
+        }
+    }
     // (d) the export plugin (sets of up to EXPORT_MAX_SET filters): it builds its own container from the same JSON
     let mut export_keys_synced: Option<Vec<(u64, u32, u8, Vec<u8>)>> = None;
     let mut export_keys_timewin: Option<Vec<(u64, u32, u8, Vec<u8>)>> = None;
@@ -316,7 +349,7 @@ fn observe(fx: &Fixture, set: &[&PoolEntry]) -> Result<Obs, (String, String)> {
     } else {
         None
     };
-    Ok(Obs { fas_kept, fas_unchanged: unchanged, fas_counts: counts, mf_kept, stream_sets, export_keys, export_keys_synced, export_keys_timewin })
+    Ok(Obs { fas_kept, fas_unchanged: unchanged, fas_counts: counts, mf_kept, stream_sets, query_sets, export_keys, export_keys_synced, export_keys_timewin })
 }
 
 /// the export plugin is driven for filter sets up to this size (quick 2, thorough 3; set by the run)
@@ -380,6 +413,13 @@ fn judge(fx: &Fixture, set: &[&PoolEntry]) -> Vec<(String, String, String)> {
         let want: Vec<usize> = (0..n).filter(|i| exp_mf[*i]).collect();
         if *set_ != want && !v.iter().any(|(c, _, _)| c == "mf_selection") {
             v.push(("stream_selection".into(), if *chunk == usize::MAX { "unlimited_chunk" } else { "chunked" }.into(), format!("process_stream_new_msgs (chunk limit {chunk}) collected positions {:?}, statement keeps {:?}", set_, want)));
+            break;
+        }
+    }
+    for (w, batch, set_) in &obs.query_sets {
+        let want: Vec<usize> = (0..n).filter(|i| exp_mf[*i]).collect();
+        if *set_ != want && !v.iter().any(|(c, _, _)| c == "mf_selection" || c == "stream_selection") {
+            v.push(("stream_selection".into(), "query_window_enlarged".into(), format!("query with window [0,{w}), arrival in batches of {batch}, window then enlarged: process_stream_new_msgs collected positions {:?}, statement keeps {:?}", set_, want)));
             break;
         }
     }
@@ -630,7 +670,7 @@ impl Prop for C12 {
         Meta {
             id: "C12",
             level: "exploration",
-            rule: "all ordered tuples (superset of the multisets) of <= k filters from a pool of 20 (positive / negative / event / marker x enabled / disabled x plain / negated, overlapping ECU / APID / payload / lifecycle criteria) x a 30-message stream (2 ECUs x {no extended header, 2 APIDs} x 2 lifecycles x 2 texts + 6 repeated messages), through filter_as_streams, through match_filters on the container built by StreamContext::from, and through the remote stream path process_stream_new_msgs (called like the server loop, chunk limits 1 / 7 / unlimited); searches: the paged stream_search sessions of the C16 explorer (stream filter set x search filter set x page size x start, following next_search_idx) on the real server handlers. Oracle from the statement (single-filter decisions from the independent C11 evaluator): selection, forwarded messages equal to the received ones, original order, passed + filtered = received and passed = number forwarded, event clause for match_filters, agreement of both implementations when no enabled event filter is present. A case is non-trivial when the statement keeps some but not all messages.".into(),
+            rule: "all ordered tuples (superset of the multisets) of <= k filters from a pool of 20 (positive / negative / event / marker x enabled / disabled x plain / negated, overlapping ECU / APID / payload / lifecycle criteria) x a 30-message stream (2 ECUs x {no extended header, 2 APIDs} x 2 lifecycles x 2 texts + 6 repeated messages), through filter_as_streams, through match_filters on the container built by StreamContext::from, and through the remote stream path process_stream_new_msgs (called like the server loop, chunk limits 1 / 7 / unlimited; as a query with a small window, batched arrival and a later window enlargement); searches: the paged stream_search sessions of the C16 explorer (stream filter set x search filter set x page size x start, following next_search_idx) on the real server handlers. Oracle from the statement (single-filter decisions from the independent C11 evaluator): selection, forwarded messages equal to the received ones, original order, passed + filtered = received and passed = number forwarded, event clause for match_filters, agreement of both implementations when no enabled event filter is present. A case is non-trivial when the statement keeps some but not all messages.".into(),
             assumptions: vec![
                 "filter_as_streams is the convert path: the statement's event clause ('for streams and searches') is applied to match_filters only".into(),
                 "the export plugin is driven for filter sets of up to 2 (thorough 3) filters: the file it writes (without its info messages) must hold exactly the messages the statement keeps; with 'lifecyclesToKeep' (family export_lifecycles_to_keep: 4 real lifecycles in an evmap, every subset of them to keep incl. the empty list = no restriction (quick 7), the lifecycle infos bracket exactly one lifecycle each) exactly those of them that belong to a kept lifecycle".into(),
